@@ -164,6 +164,12 @@ def drive_and_validate(ctx, tag, profile, n, ops, seed, ids=6, backends="memory,
                 backend = json.loads(line)["cfg"]["backend"]
             elif '"ev":"Reopen"' in line:
                 ctx.count("restart_steps_sqlite", 1)
+            elif '"ev":"HandleDeq"' in line:
+                if backend == "sqlite":
+                    e = json.loads(line)
+                    ctx.count("two_handle_dequeues", 1)
+                    if e["r"]["first"]["items"] and e["r"]["second"]["items"]:
+                        ctx.count("two_handle_dequeues_both_got_messages", 1)
             elif '"ev":"HandleRace"' in line:
                 e = json.loads(line)
                 if backend != "sqlite":
@@ -294,7 +300,7 @@ def triage(ctx, results, sched_file, reference=False, max_report=12):
         if reference:
             args.append("-reference")
         # a schedule with a two-handle race depends on the order in which SQLite grants its write lock: several attempts
-        attempts = 12 if any(o.get("op") == "HandleRace" for o in sched["ops"]) else 1
+        attempts = 12 if any(o.get("op") == "HandleRace" for o in sched["ops"]) else 1   # (HandleDeq steps are HandleRace ops too)
         for _ in range(attempts):
             vf.hkv(args)
             rr = vf.tv_run(ctx, [out], name="tv-repro", **tv_module_for(sched["ops"]))[0]
